@@ -1,0 +1,37 @@
+//go:build verif
+
+package search
+
+import (
+	"encoding/binary"
+	"hash"
+)
+
+// VerifAborted reports the sticky abort flag as left by the last Go (build
+// tag verif).
+func (s *Search) VerifAborted() bool { return s.aborted }
+
+// VerifGen is the current table generation.
+func (s *Search) VerifGen() int { return int(s.gen) }
+
+// VerifTTBytes is the current transposition table size in bytes.
+func (s *Search) VerifTTBytes() int { return s.tt.VerifBytes() }
+
+// VerifDigest feeds everything a later search can depend on - transposition
+// table, history tables, generation - into h.
+func (s *Search) VerifDigest(h hash.Hash) {
+	s.tt.VerifDigest(h)
+	s.ranker.VerifDigest(h)
+	var g [8]byte
+	binary.LittleEndian.PutUint64(g[:], uint64(s.gen))
+	h.Write(g[:])
+}
+
+// VerifClone returns a new engine whose persistent state equals that of s.
+func (s *Search) VerifClone() *Search {
+	c := New(s.tt.VerifBytes())
+	c.tt.VerifCopyFrom(s.tt)
+	c.ranker.VerifCopyFrom(&s.ranker)
+	c.gen = s.gen
+	return c
+}
